@@ -96,7 +96,7 @@ func stGenModify(r *fw.Rand) (string, stExp, bool) {
 	v := stGenValue(r)
 	cn := r.Pick(stCJK)
 	paren := strings.HasSuffix(v.text, ")")
-	switch r.Intn(6) {
+	switch r.Intn(8) {
 	case 0:
 		return cn + "+" + v.text, stExp{"mod", cn, v.canon, "NIL", "+", v.text}, paren
 	case 1:
@@ -111,6 +111,15 @@ func stGenModify(r *fw.Rand) (string, stExp, bool) {
 		a, b := 1+r.Intn(5), 1+r.Intn(5)
 		txt := fmt.Sprintf("-%d-%d", a, b)
 		return cn + txt, stExp{"mod", cn, fmt.Sprintf("i%d", a+b), "NIL", "-", txt}, false
+	case 6:
+		// the written "-expr" may evaluate to a positive number: the reported value is its negation
+		a, b := r.Intn(6), r.Intn(9)
+		txt := fmt.Sprintf("-(%d-%d)", a, b)
+		return cn + txt, stExp{"mod", cn, fmt.Sprintf("i%d", a-b), "NIL", "-", txt}, true
+	case 7:
+		a, b := 1+r.Intn(5), r.Intn(9)
+		txt := fmt.Sprintf("-%d+%d", a, b)
+		return cn + txt, stExp{"mod", cn, fmt.Sprintf("i%d", a-b), "NIL", "-", txt}, false
 	default:
 		name := cn + "12"
 		return "'" + name + "'" + stBlank(r) + "+=" + stBlank(r) + v.text, stExp{"mod", name, v.canon, "NIL", "+", v.text}, paren
